@@ -63,6 +63,35 @@ def _get_qiskit_gates():
     return {"ch": ch, "tdg": tdg, "id": id, "u2": u2, "sdg": sdg, "cu3": cu3}
 
 
+def _eval_param(expr):
+    """
+    Evaluate a parameter expression of a gate call: numbers, ``pi``,
+    ``+ - * /``, unary minus and parentheses.
+    """
+    expr = str(expr)
+    if "^" in expr or "**" in expr:
+        raise NotImplementedError(
+            "QASM: the power operator is not supported in expressions."
+        )
+    return eval(expr, {"__builtins__": {}}, {"pi": pi})
+
+
+def _substitute(text, mapping, template="{}"):
+    """
+    Replace every identifier of ``text`` that is a key of ``mapping``
+    by its value (whole identifiers only).
+    """
+    return re.sub(
+        r"(?<![\w.])[A-Za-z_]\w*",
+        lambda m: (
+            template.format(mapping[m.group(0)])
+            if m.group(0) in mapping
+            else m.group(0)
+        ),
+        text,
+    )
+
+
 def _tokenize_line(command):
     """
     Tokenize (break into several parts a string of) a single line of QASM code.
@@ -397,25 +426,19 @@ class QasmProcessor:
 
         # maps variables to supplied arguments, registers
         for i, arg in enumerate(gate.gate_args):
-            args_map[arg] = eval(str(args[i]))
+            args_map[arg.strip()] = _eval_param(args[i])
         for i, reg in enumerate(gate.gate_regs):
-            regs_map[reg] = regs[i]
+            regs_map[reg.strip()] = regs[i]
         # process all the constituent gates with supplied arguments, registers
         for call in gate.gates_inside:
             # create function call for the constituent gate
             name, com_args, com_regs = call
 
-            for arg, real_arg in args_map.items():
-                com_args = [
-                    command.replace(arg.strip(), str(real_arg))
-                    for command in com_args
-                ]
-            for reg, real_reg in regs_map.items():
-                com_regs = [
-                    command.replace(reg.strip(), str(real_reg))
-                    for command in com_regs
-                ]
-            com_args = [eval(arg) for arg in com_args]
+            com_args = [
+                _eval_param(_substitute(arg, args_map, "({})"))
+                for arg in com_args
+            ]
+            com_regs = [_substitute(reg, regs_map) for reg in com_regs]
 
             if name in self.predefined_gates:
                 qc_temp.user_gates = _get_qiskit_gates()
@@ -806,7 +829,7 @@ class QasmProcessor:
         qc.user_gates = custom_gates
 
         if command[0] in self.predefined_gates:
-            args = [eval(arg) for arg in args]
+            args = [_eval_param(arg) for arg in args]
 
         # adds gate to the QubitCircuit
         for regs in reg_set:
